@@ -11,7 +11,13 @@ An *ext* is plain data:
      'files': {srcdir-relative path: content}      (beyond the dag's own files)
      'bld_files': {builddir-relative path: content} (exist before configure)
      'items': [item, ...]                          (in script order)
-     'nodist_dag': [paths of dag-read files whose every reference gets dist=False]}
+     'nodist_dag': [paths of dag-read files whose every reference gets dist=False]
+     'layout': 'separate' (build dir next to the source dir, unrelated names) |
+               'nested' (build dir = <src>/build, with sources named build_aux/..,
+               buildtools/.., build.cfg, build-data/.. and a top-level ** search that
+               excludes build/) | 'sibling-bld-prefix' (the build dir's path is a string
+               prefix of the source dir's: proj / proj-1.0) | 'sibling-src-prefix'
+               (src = proj, bld = proj-build)}
 
 Items (all paths relative to item['scope']):
 
@@ -128,6 +134,8 @@ def gen_ext(rng, spec):
     elif r < 0.7:
         ext['project'] = {'name': None, 'version': '2.0'}
     ext['srcname'] = rng.choice(['src', 'pkg-0.9', 'My_Proj'])
+    ext['layout'] = rng.choice(['separate', 'nested', 'nested', 'sibling-bld-prefix',
+                                'sibling-src-prefix'])
 
     # ---- scopes
     pool = rng.choice([[], ['sub1/'], ['sub1/', 'sub2/'], ['sub1/', 'sub1/inner/'],
@@ -164,6 +172,24 @@ def gen_ext(rng, spec):
             ext['files'][sc + path] = 'c18 single %s\n' % path
             items.append({'k': 'file', 'scope': sc, 'fn': fn, 'path': path, 'args': args,
                           'dist': dist, 'var': v})
+        if main and (ext['layout'] == 'nested' or rng.random() < 0.4):
+            # names that merely *start* like the (nested) build directory `build`
+            for fn, path in rng.sample([('source_file', 'build_aux/ver.c'),
+                                        ('header_file', 'buildtools/t.h'),
+                                        ('generic_file', 'build.cfg'),
+                                        ('generic_file', 'build-data/d.txt'),
+                                        ('auto_file', 'builder.c')], rng.randint(2, 5)):
+                ext['files'][path] = 'c18 %s\n' % path
+                items.append({'k': 'file', 'scope': sc, 'fn': fn, 'path': path, 'args': '',
+                              'dist': True, 'var': var()})
+            if ext['layout'] == 'nested':
+                # a search over the whole source tree has to keep out of the build dir
+                ext['files'].setdefault('build_aux/opts.cfg', 'c18 opts\n')
+                ext['bld_files']['pregen/trap.cfg'] = 'lives in the build directory\n'
+                items.append({'k': 'find', 'scope': sc, 'fn': 'find_files', 'dist': True,
+                              'var': var(), 'repeat': False, 'file_type': None, 'type': None,
+                              'extra': None, 'exclude': ['build/'], 'filter': None,
+                              'cache': None, 'patterns': ['**/*.cfg']})
         if rng.random() < 0.3:
             ext['bld_files'].setdefault('pregen/g1.txt', 'pre-generated\n')
             items.append({'k': 'bfile', 'scope': sc, 'path': 'pregen/g1.txt', 'var': var(),
@@ -528,6 +554,18 @@ def render(spec, ext, stub='vrec'):
                 L.append('submodule(%r)' % ch[len(sc):].rstrip('/'))
         files[sc + 'options.bfg'] = '\n'.join(L) + '\n'
     return files
+
+
+def build_dir(ext, src):
+    """Where the build directory goes for a source directory `src`."""
+    layout = ext.get('layout', 'separate')
+    if layout == 'nested':
+        return posixpath.join(src, 'build')
+    if layout == 'sibling-bld-prefix':
+        return src[:-2] if len(posixpath.basename(src)) > 2 else src[:-1]
+    if layout == 'sibling-src-prefix':
+        return src + '-build'
+    return posixpath.join(posixpath.dirname(src), 'bld')
 
 
 def top_dir(ext):
